@@ -107,7 +107,9 @@ func panicKind(msg string, buflen int) string {
 
 var strPool = []string{"", "a", "ab", "b", "é✓", "s1", "lock/1", "\x00", "\x01\x01\x01\x01", strings.Repeat("x", 127),
 	strings.Repeat("y", 128), strings.Repeat("z", 300), strings.Repeat("w", 16384)}
-var sizePool = []int32{0, 1, 2, 3, -1, 2147483647, -2147483648, 300, 65536, 16777216}
+// boundary values of the usual integer encodings (7-bit groups, zig-zag, byte widths)
+var sizePool = []int32{0, 1, 2, 3, -1, 2147483647, -2147483648, 300, 65536, 16777216,
+	63, 64, 100, 127, 128, 255, 256, 8191, 8192, 16383, 16384, 32767, 32768, 1 << 20, 1<<21 - 1, 1 << 21, 1 << 27, 1<<28 - 1, -64, -65, -128, -129}
 
 func randStr(r *common.Rng) string {
 	if r.Chance(70) {
@@ -185,8 +187,22 @@ func TestCodec(t *testing.T) {
 					st.Read()
 				}
 			}
-			if err := st.Write(m); err != nil {
-				t.Fatal(err)
+			wp := ""
+			func() {
+				defer func() {
+					if r := recover(); r != nil {
+						wp = fmt.Sprint(r)
+					}
+				}()
+				if err := st.Write(m); err != nil {
+					wp = "error: " + err.Error()
+				}
+			}()
+			if wp != "" {
+				res.Find(common.Finding{Kind: "violation", Property: "C17", Signature: "codec:write-failed",
+					What:   fmt.Sprintf("store.Write #%d of a sequence failed on a table the server can hold: %s", i+1, wp),
+					Replay: map[string]any{"sequence": seqReplay(ms[:i+1])}})
+				return
 			}
 			b, err := os.ReadFile(p)
 			if err != nil {
@@ -194,17 +210,41 @@ func TestCodec(t *testing.T) {
 			}
 			valid[string(b)] = true
 			cases = append(cases, caseRec{kind: "valid", bytes: b, want: canonMap(m), seq: i})
-			// monitor (model independent): a second handle reads back an equal map
-			st2, _ := store.New(p)
-			got, err := st2.Read()
-			st2.Close()
+			// monitor (model independent): a second handle reads back an equal map. A file whose counts
+			// and lengths do not fit its size is read in a memory-limited child: store.Read may ask for
+			// terabytes on it (K6), which would end this process
+			if !fitsItsSize(b) {
+				res.Count("written-file-read-in-child")
+				out := childDecode(t, dir, b)
+				if out != "ok "+canonMap(m) {
+					res.Find(common.Finding{Kind: "violation", Property: "C17", Signature: "codec:roundtrip",
+						What:   fmt.Sprintf("store.Read after store.Write #%d of a sequence does not return the written map: %s", i+1, out),
+						Replay: map[string]any{"sequence": seqReplay(ms[:i+1]), "read_back": out, "file_hex": hex.EncodeToString(b)}})
+				}
+				return
+			}
+			var got smap
+			rp := ""
+			func() {
+				defer func() {
+					if r := recover(); r != nil {
+						rp = fmt.Sprint("panic ", r)
+					}
+				}()
+				st2, _ := store.New(p)
+				defer st2.Close()
+				got, err = st2.Read()
+			}()
 			if got == nil && err == nil {
 				got = smap{}
 			}
-			if err != nil || canonMap(got) != canonMap(m) {
+			if rp != "" || err != nil || canonMap(got) != canonMap(m) {
 				res.Find(common.Finding{Kind: "violation", Property: "C17", Signature: "codec:roundtrip",
-					What:   fmt.Sprintf("store.Read after store.Write #%d of a sequence does not return the written map (err=%v)", i+1, err),
+					What:   fmt.Sprintf("store.Read after store.Write #%d of a sequence does not return the written map (err=%v %s)", i+1, err, rp),
 					Replay: map[string]any{"sequence": seqReplay(ms[:i+1]), "read_back": canonMap(got), "file_hex": hex.EncodeToString(b)}})
+				if rp != "" {
+					return
+				}
 			}
 		}
 	}
@@ -219,6 +259,12 @@ func TestCodec(t *testing.T) {
 		}
 		res.Count(fmt.Sprintf("rewrite-sequence-length:%d", n))
 		writeSeq(ms)
+	}
+	// checkpoint: what the write/read-back monitor found survives a decoder that ends the process
+	// (out of memory is not recoverable) in the parts below
+	res.Note("checkpoint written after the write/read-back part")
+	if err := res.Write(); err != nil {
+		t.Fatal(err)
 	}
 	if common.Thorough() {
 		// exhaustive small maps: up to 2 sessions × up to 2 holds over a 3-string alphabet, 2 sizes
@@ -449,6 +495,64 @@ func firstLine(s string) string {
 		}
 	}
 	return ""
+}
+
+// fitsItsSize walks the layout of a state file (uvarint counts and lengths, 4-byte sizes, 4-byte
+// terminators) and reports whether every count and length fits into the bytes that follow it. It
+// decides only WHERE a file is read back (in process or in a memory-limited child), never a verdict.
+func fitsItsSize(b []byte) bool {
+	n := 0
+	uv := func() (uint64, bool) {
+		var x uint64
+		for i := 0; i < 10; i++ {
+			if n >= len(b) {
+				return 0, false
+			}
+			c := b[n]
+			n++
+			x |= uint64(c&0x7f) << (7 * uint(i))
+			if c < 0x80 {
+				return x, true
+			}
+		}
+		return 0, false
+	}
+	skip := func(k uint64) bool {
+		if k > uint64(len(b)-n) {
+			return false
+		}
+		n += int(k)
+		return true
+	}
+	str := func() bool {
+		l, ok := uv()
+		return ok && skip(l)
+	}
+	if len(b) == 0 {
+		return true
+	}
+	cnt, ok := uv()
+	if !ok || cnt > uint64(len(b)) {
+		return false
+	}
+	for i := uint64(0); i < cnt; i++ {
+		if !str() {
+			return false
+		}
+		hc, ok := uv()
+		if !ok || hc > uint64(len(b)) {
+			return false
+		}
+		for j := uint64(0); j < hc; j++ {
+			if !str() || !str() || !skip(4) {
+				return false
+			}
+		}
+		if !skip(4) {
+			return false
+		}
+	}
+	return skip(4) && n == len(b)
 }
 
 func TestCodecChild(t *testing.T) {
